@@ -541,6 +541,13 @@ func (o *oracles) checkLearnerCalls(prev, snap *scheduler.VerifSnapshot, actingW
 		switch {
 		case submitted == nil || actingWorker == nil || c.rec.action.hash != submittedHash:
 			w.violate("C07/learner-call-without-completion", fmt.Sprintf("learner #%d (%s) of action#%d received %s although no worker reported the completion of that action in this step", c.rec.id, c.rec.kind, c.rec.action.idx, c.call))
+			if c.call == "failed" && c.retry {
+				// C02: the only documented way back to QUEUED is the retry of an
+				// action that a worker reported as failed; a task ended by the
+				// scheduler itself (kill, lost worker, retry limit, queue
+				// removal) owes its waiters the final error instead.
+				w.violate("C02/requeued-without-worker-failure", fmt.Sprintf("action#%d was put back in the queue for a retry on the largest size class although no worker reported its failure in this step: its waiters get QUEUED instead of the final error the scheduler produced", c.rec.action.idx))
+			}
 		case c.call == "succeeded":
 			if !isSuccess(submitted) {
 				w.violate("C07/learner-call-mismatch", fmt.Sprintf("learner #%d of action#%d received Succeeded for a response with status %s exit code %d", c.rec.id, c.rec.action.idx, status.FromProto(submitted.Status).Code(), submitted.GetResult().GetExitCode()))
